@@ -61,11 +61,6 @@ Proof.
   - apply Forall_app; auto.
 Qed.
 
-Lemma clean_app : forall a b, clean (a ++ b) = clean a && clean b.
-Proof. intros; unfold clean; apply forallb_app. Qed.
-Lemma clean_cons : forall x a, clean (x :: a) = negb (is_marker x) && clean a.
-Proof. reflexivity. Qed.
-
 (* ------------------------------------------------------------------ model pieces = spec pieces *)
 Lemma balance_of_eq : forall w c a, balance_of (mstate_of w c) a = get_balance w a.
 Proof. reflexivity. Qed.
@@ -154,6 +149,9 @@ Proof.
   intros. unfold send_force. rewrite sends_eq. destruct kd; cbn [is_kcall carries_value]; try reflexivity.
   change (call_fund (op_of KCall) v0) with v0. apply transfer_force_eq.
 Qed.
+(* the status word of a call of an account without code: 1 unless the depth limit is exceeded *)
+Lemma unknown_ok_eq : forall d, unknown_call_ok d = negb (MAX_DEPTH <? d + 1).
+Proof. intros. unfold unknown_call_ok, MAX_CALL_DEPTH, MAX_DEPTH. lia. Qed.
 Lemma depth_eq : forall d, depth_exceeded (d + 1) = (MAX_DEPTH <? d + 1).
 Proof. intros. unfold depth_exceeded, MAX_CALL_DEPTH, MAX_DEPTH. lia. Qed.
 Lemma new_address_eq : forall n, new_address n = CREATE_BASE + n.
@@ -173,11 +171,11 @@ Qed.
 (* ------------------------------------------------------------------ simulation of one call / create *)
 Definition callee_hyp (callee : script) (run : fctx -> mstate -> list mres) : Prop :=
   forall c' w' ctr' r ctr'' lg,
-    sexec callee c' w' ctr' [] [] = (r, ctr'', lg) -> clean lg = true ->
+    sexec callee c' w' ctr' [] [] = (r, ctr'', lg) ->
     Sim (run c' (mstate_of w' ctr')) (r, ctr'', lg).
 Definition cont_hyp (rest : script) (c : fctx) (cont : mstate -> list Z -> lastsub -> list mres) : Prop :=
   forall w' ctr' ob' l' r ctr'' lg,
-    sexec rest c w' ctr' ob' (returndata l') = (r, ctr'', lg) -> clean lg = true ->
+    sexec rest c w' ctr' ob' (returndata l') = (r, ctr'', lg) ->
     Sim (cont (mstate_of w' ctr') ob' l') (r, ctr'', lg).
 
 Lemma sub_frame_sim : forall callee run sc w1 ctr r1 ctr1 lg1,
@@ -187,10 +185,9 @@ Lemma sub_frame_sim : forall callee run sc w1 ctr r1 ctr1 lg1,
   | [] => stop_frame sc w1 ctr
   | _ => let '(r, c1, l1) := sexec callee sc w1 ctr [] [] in (r, c1, LFrame sc :: l1)
   end = (r1, ctr1, lg1) ->
-  clean lg1 = true ->
   Sim (sub_frame sc (mstate_of w1 ctr) run) (r1, ctr1, lg1).
 Proof.
-  intros callee run sc w1 ctr r1 ctr1 lg1 Hc Hd Hs Hcl.
+  intros callee run sc w1 ctr r1 ctr1 lg1 Hc Hd Hs.
   unfold sub_frame. rewrite Hd.
   destruct (c_code sc) eqn:Hcode.
   - unfold stop_frame in Hs. inversion Hs; subst. apply Sim_single.
@@ -209,7 +206,6 @@ Lemma call_finish_sim : forall c w ctr0 ob rsz rest cont subs r1 ctr1 lg1 r2 ctr
   | SRevert ret => sexec rest c w ctr1 (after_call ob 0 ret rsz ret) ret
   | SHalt => sexec rest c w ctr1 (after_call ob 0 [] rsz []) []
   end = (r2, ctr2, lg2) ->
-  clean lg2 = true ->
   Sim (flat_map
          (fun sub : mres =>
             let '(r, st2, lg) := sub in
@@ -220,18 +216,18 @@ Lemma call_finish_sim : forall c w ctr0 ob rsz rest cont subs r1 ctr1 lg1 r2 ctr
             map (addlog lg) (cont st3 (m_after_call ob (if success then 1 else 0) l rsz data) l))
          subs) (r2, ctr2, lg1 ++ lg2).
 Proof.
-  intros c w ctr0 ob rsz rest cont subs r1 ctr1 lg1 r2 ctr2 lg2 Hk [Hne Hall] Hs Hcl.
+  intros c w ctr0 ob rsz rest cont subs r1 ctr1 lg1 r2 ctr2 lg2 Hk [Hne Hall] Hs.
   apply Sim_flat_map; [exact Hne|].
   intros [[f st2] lg] Hin. rewrite Forall_forall in Hall. specialize (Hall _ Hin).
   destruct r1 as [ret w2 | ret |].
   - apply R_state in Hall as (-> & -> & ->). cbn [output_of call_success negb].
-    apply Sim_addlog. rewrite after_call_eq. apply Hk; [|exact Hcl].
+    apply Sim_addlog. rewrite after_call_eq. apply Hk.
     rewrite returndata_call. exact Hs.
   - destruct Hall as (-> & Hc & ->). cbn [output_of call_success negb].
-    rewrite restore_call_eq, Hc. apply Sim_addlog. rewrite after_call_eq. apply Hk; [|exact Hcl].
+    rewrite restore_call_eq, Hc. apply Sim_addlog. rewrite after_call_eq. apply Hk.
     rewrite returndata_call. exact Hs.
   - destruct Hall as (-> & Hc & ->). cbn [output_of call_success negb].
-    rewrite restore_call_eq, Hc. apply Sim_addlog. rewrite after_call_eq. apply Hk; [|exact Hcl].
+    rewrite restore_call_eq, Hc. apply Sim_addlog. rewrite after_call_eq. apply Hk.
     rewrite returndata_call. exact Hs.
 Qed.
 
@@ -266,10 +262,10 @@ Proof. intros ms [[r c] lg] H. apply (Sim_addlog [] ms r c lg H). Qed.
 Lemma m_call_sim : forall kd to0 v0 rsz c w ctr ob l callee rest run cont,
   callee_hyp callee run -> cont_hyp rest c cont ->
   forall r ctr' lg,
-  sexec (SCall kd to0 v0 rsz callee rest) c w ctr ob (returndata l) = (r, ctr', lg) -> clean lg = true ->
+  sexec (SCall kd to0 v0 rsz callee rest) c w ctr ob (returndata l) = (r, ctr', lg) ->
   Sim (m_call kd to0 v0 rsz c (mstate_of w ctr) ob run cont) (r, ctr', lg).
 Proof.
-  intros kd to0 v0 rsz c w ctr ob l callee rest run cont Hc Hk r ctr' lg Hs Hcl.
+  intros kd to0 v0 rsz c w ctr ob l callee rest run cont Hc Hk r ctr' lg Hs.
   cbn [sexec] in Hs.
   unfold m_call, send_callvalue. cbv zeta.
   change (2 ^ 160) with ADDR_MOD.
@@ -281,26 +277,33 @@ Proof.
   { (* a value-bearing CALL in a static frame halts the frame *)
     inversion Hs; subst. apply Sim_single. cbn. auto. }
   assert (Hfail : forall l0 r0 c0 lg0, returndata l0 = [] ->
-            sexec rest c w ctr (after_call ob 0 [] rsz []) [] = (r0, c0, lg0) -> clean lg0 = true ->
+            sexec rest c w ctr (after_call ob 0 [] rsz []) [] = (r0, c0, lg0) ->
             Sim (cont (mstate_of w ctr) (m_after_call ob 0 l0 rsz []) l0) (r0, c0, lg0)).
-  { intros l0 r0 c0 lg0 Hl Hr Hcl0. rewrite after_call_eq, Hl. apply Hk; [rewrite Hl; auto | auto]. }
+  { intros l0 r0 c0 lg0 Hl Hr. rewrite after_call_eq, Hl. apply Hk; rewrite Hl; auto. }
   assert (Hnc : carries_value kd = false -> can_pay w (c_this c) v = true).
   { intros E. subst v. rewrite E. reflexivity. }
   set (w1 := if is_kcall kd then xfer w (c_this c) to v else w) in *.
+  rewrite unknown_ok_eq.
   destruct (MAX_DEPTH <? c_depth c + 1) eqn:Hd.
-  { (* depth limit: the sub-frame halts at its first step, the callback restores *)
-    destruct (sexec rest c w ctr (after_call ob 0 [] rsz []) []) as [[r0 c0] lg0] eqn:Hr.
-    destruct (has_account w to) eqn:Ha; inversion Hs; subst; [| discriminate Hcl].
-    cbn [app] in Hcl |- *.
+  { (* depth limit: the sub-frame of an existing account halts at its first step and the callback
+       restores; the call of an account without code pushes 0 and sends nothing *)
+    cbn [negb].
     assert (HX : Sim (cont (mstate_of w ctr) (m_after_call ob 0 (Some (false, true, [])) rsz []) (Some (false, true, []))) (r, ctr', lg)).
     { apply Hfail; auto. }
-    destruct (can_pay w (c_this c) v) eqn:Hcp.
-    - rewrite andb_false_r. cbn [negb app]. apply Sim_app_nil_r.
-      unfold sub_frame. rewrite sub_ctx_depth, depth_eq, Hd.
-      cbn [flat_map output_of call_success negb app]. rewrite app_nil_r, restore_call_eq.
-      apply Sim_addlog_nil. exact HX.
-    - destruct (carries_value kd) eqn:Hcv; [| discriminate (Hnc eq_refl)].
-      cbn [andb negb app]. exact HX. }
+    assert (HU : Sim (cont (mstate_of w ctr) (m_after_call ob 0 (Some (false, false, [])) rsz []) (Some (false, false, []))) (r, ctr', lg)).
+    { apply Hfail; auto. }
+    destruct (has_account w to) eqn:Ha.
+    - destruct (can_pay w (c_this c) v) eqn:Hcp.
+      + rewrite andb_false_r. cbn [negb app]. apply Sim_app_nil_r.
+        unfold sub_frame. rewrite sub_ctx_depth, depth_eq, Hd.
+        cbn [flat_map output_of call_success negb app]. rewrite app_nil_r, restore_call_eq.
+        apply Sim_addlog_nil. exact HX.
+      + destruct (carries_value kd) eqn:Hcv; [| discriminate (Hnc eq_refl)].
+        cbn [andb negb app]. exact HX.
+    - destruct (can_pay w (c_this c) v) eqn:Hcp; cbn [negb].
+      + apply Sim_app_nil_r. exact HU.
+      + apply Sim_app; [exact HU | exact HX]. }
+  cbn [negb].
   destruct (carries_value kd && negb (can_pay w (c_this c) v)) eqn:Hp.
   { (* the caller cannot pay: only the insufficient-funds branch holds *)
     apply andb_prop in Hp as [Hcv Hcp]. apply negb_true_iff in Hcp. rewrite Hcp.
@@ -320,7 +323,7 @@ Proof.
               | SRevert ret => sexec rest c w ctr1 (after_call ob 0 ret rsz ret) ret
               | SHalt => sexec rest c w ctr1 (after_call ob 0 [] rsz []) []
               end) as [[r2 ctr2] lg2] eqn:Hrest.
-    inversion Hs; subst. rewrite clean_app in Hcl. apply andb_prop in Hcl as [Hcl1 Hcl2].
+    inversion Hs; subst.
     eapply call_finish_sim; eauto.
     eapply sub_frame_sim; eauto.
     rewrite sub_ctx_depth, depth_eq. exact Hd.
@@ -330,8 +333,7 @@ Proof.
     change (LFrame (sub_ctx kd c w to v) :: LEnd (FOk []) :: lg2)
       with ([LFrame (sub_ctx kd c w to v); LEnd (FOk [])] ++ lg2).
     apply Sim_addlog. rewrite after_call_eq, returndata_call. apply Hk.
-    + rewrite returndata_call. exact Hrest.
-    + exact Hcl.
+    rewrite returndata_call. exact Hrest.
 Qed.
 
 Lemma create_finish_sim : forall c w ctr0 new ob rest cont subs r1 ctr1 lg1 r2 ctr2 lg2,
@@ -342,7 +344,6 @@ Lemma create_finish_sim : forall c w ctr0 new ob rest cont subs r1 ctr1 lg1 r2 c
   | SRevert ret => sexec rest c w ctr1 (after_create ob 0 ret) ret
   | SHalt => sexec rest c w ctr1 (after_create ob 0 []) []
   end = (r2, ctr2, lg2) ->
-  clean lg2 = true ->
   Sim (flat_map
          (fun sub : mres =>
             let '(r, st3, lg) := sub in
@@ -354,19 +355,19 @@ Lemma create_finish_sim : forall c w ctr0 new ob rest cont subs r1 ctr1 lg1 r2 c
                else cont (restore_create (mstate_of w ctr0) st3) (m_after_create ob 0 l) l))
          subs) (r2, ctr2, lg1 ++ lg2).
 Proof.
-  intros c w ctr0 new ob rest cont subs r1 ctr1 lg1 r2 ctr2 lg2 Hk [Hne Hall] Hs Hcl.
+  intros c w ctr0 new ob rest cont subs r1 ctr1 lg1 r2 ctr2 lg2 Hk [Hne Hall] Hs.
   apply Sim_flat_map; [exact Hne|].
   intros [[f st2] lg] Hin. rewrite Forall_forall in Hall. specialize (Hall _ Hin).
   destruct r1 as [ret w2 | ret |].
   - apply R_state in Hall as (-> & -> & ->). cbn [output_of create_success negb].
     apply Sim_addlog. rewrite after_create_eq.
     change (m_set_code (mstate_of w2 ctr1) new ret) with (mstate_of (set_code w2 new ret) ctr1).
-    apply Hk; [|exact Hcl]. rewrite returndata_create_ok. exact Hs.
+    apply Hk. rewrite returndata_create_ok. exact Hs.
   - destruct Hall as (-> & Hc & ->). cbn [output_of create_success negb].
-    rewrite restore_create_eq, Hc. apply Sim_addlog. rewrite after_create_eq. apply Hk; [|exact Hcl].
+    rewrite restore_create_eq, Hc. apply Sim_addlog. rewrite after_create_eq. apply Hk.
     rewrite returndata_create_err. exact Hs.
   - destruct Hall as (-> & Hc & ->). cbn [output_of create_success negb].
-    rewrite restore_create_eq, Hc. apply Sim_addlog. rewrite after_create_eq. apply Hk; [|exact Hcl].
+    rewrite restore_create_eq, Hc. apply Sim_addlog. rewrite after_create_eq. apply Hk.
     rewrite returndata_create_err. exact Hs.
 Qed.
 
@@ -376,10 +377,10 @@ Proof. reflexivity. Qed.
 Lemma m_create_sim : forall v initcode c w ctr ob l init rest run cont,
   callee_hyp init run -> cont_hyp rest c cont ->
   forall r ctr' lg,
-  sexec (SCreate v initcode init rest) c w ctr ob (returndata l) = (r, ctr', lg) -> clean lg = true ->
+  sexec (SCreate v initcode init rest) c w ctr ob (returndata l) = (r, ctr', lg) ->
   Sim (m_create v initcode c (mstate_of w ctr) ob run cont) (r, ctr', lg).
 Proof.
-  intros v initcode c w ctr ob l init rest run cont Hc Hk r ctr' lg Hs Hcl.
+  intros v initcode c w ctr ob l init rest run cont Hc Hk r ctr' lg Hs.
   cbn [sexec] in Hs.
   unfold m_create. cbv zeta.
   unfold create_static_check, create_backup_before_setup. cbn [andb].
@@ -393,9 +394,9 @@ Proof.
   change (m_new_account (mstate_of w ctr0) new) with (mstate_of (new_account w new) ctr0).
   rewrite transfer_value_eq, can_pay_new_account.
   assert (Hfail : forall r0 c0 lg0,
-            sexec rest c w ctr0 (after_create ob 0 []) [] = (r0, c0, lg0) -> clean lg0 = true ->
+            sexec rest c w ctr0 (after_create ob 0 []) [] = (r0, c0, lg0) ->
             Sim (cont (mstate_of w ctr0) (m_after_create ob 0 (Some (true, true, []))) (Some (true, true, []))) (r0, c0, lg0)).
-  { intros r0 c0 lg0 Hr Hcl0. rewrite after_create_eq, returndata_create_err. apply Hk; auto. }
+  { intros r0 c0 lg0 Hr. rewrite after_create_eq, returndata_create_err. apply Hk; auto. }
   destruct (has_account w new) eqn:Ha.
   { rewrite !orb_true_r in Hs.
     destruct (can_pay w (c_this c) v); cbn [negb app].
@@ -420,7 +421,7 @@ Proof.
             | SRevert ret => sexec rest c w ctr1 (after_create ob 0 ret) ret
             | SHalt => sexec rest c w ctr1 (after_create ob 0 []) []
             end) as [[r2 ctr2] lg2] eqn:Hrest.
-  inversion Hs; subst r ctr' lg. rewrite clean_app in Hcl. apply andb_prop in Hcl as [Hcl1 Hcl2].
+  inversion Hs; subst r ctr' lg.
   eapply create_finish_sim; eauto.
   eapply sub_frame_sim; eauto.
   subst sc. cbn [c_depth]. rewrite depth_eq. exact Hd.
@@ -428,10 +429,10 @@ Qed.
 
 (* ------------------------------------------------------------------ the refinement theorem *)
 Theorem mexec_refines : forall s c w ctr ob l r ctr' lg,
-  sexec s c w ctr ob (returndata l) = (r, ctr', lg) -> clean lg = true ->
+  sexec s c w ctr ob (returndata l) = (r, ctr', lg) ->
   Sim (mexec s c (mstate_of w ctr) ob l) (r, ctr', lg).
 Proof.
-  induction s; intros c w ctr ob l r ctr' lg Hs Hcl.
+  induction s; intros c w ctr ob l r ctr' lg Hs.
   - cbn [sexec mexec] in *. inversion Hs; subst. apply Sim_single.
     destruct e; cbn; rewrite ?world_mstate; auto.
   - cbn [sexec mexec] in *. unfold sstore_static_check. cbn [andb]. destruct (c_static c).
@@ -459,23 +460,23 @@ Proof.
   - cbn [sexec mexec] in *. destruct (cond =? 0); [apply IHs2 | apply IHs1]; auto.
   - cbn [sexec mexec] in *. rewrite ext_observation_eq. apply IHs; auto.
   - cbn [mexec]. eapply m_call_sim; eauto.
-    + intros c' w' ctr1 r1 ctr2 lg1 H1 H2. apply (IHs1 c' w' ctr1 [] None); auto.
-    + intros w' ctr1 ob' l' r1 ctr2 lg1 H1 H2. apply IHs2; auto.
+    + intros c' w' ctr1 r1 ctr2 lg1 H1. apply (IHs1 c' w' ctr1 [] None); auto.
+    + intros w' ctr1 ob' l' r1 ctr2 lg1 H1. apply IHs2; auto.
   - cbn [mexec]. eapply m_create_sim; eauto.
-    + intros c' w' ctr1 r1 ctr2 lg1 H1 H2. apply (IHs1 c' w' ctr1 [] None); auto.
-    + intros w' ctr1 ob' l' r1 ctr2 lg1 H1 H2. apply IHs2; auto.
+    + intros c' w' ctr1 r1 ctr2 lg1 H1. apply (IHs1 c' w' ctr1 [] None); auto.
+    + intros w' ctr1 ob' l' r1 ctr2 lg1 H1. apply IHs2; auto.
 Qed.
 
 (* whole frames *)
 Theorem mframe_refines : forall s c w ctr r ctr' lg,
   c_depth c <= MAX_DEPTH ->
-  sframe s c w ctr = (r, ctr', lg) -> clean lg = true ->
+  sframe s c w ctr = (r, ctr', lg) ->
   Sim (mframe s c (mstate_of w ctr)) (r, ctr', lg).
 Proof.
-  intros s c w ctr r ctr' lg Hd Hs Hcl.
+  intros s c w ctr r ctr' lg Hd Hs.
   unfold mframe. unfold sframe in Hs.
   eapply sub_frame_sim with (callee := s); eauto.
-  - intros c' w' ctr1 r1 ctr2 lg1 H1 H2. apply (mexec_refines s c' w' ctr1 [] None); auto.
+  - intros c' w' ctr1 r1 ctr2 lg1 H1. apply (mexec_refines s c' w' ctr1 [] None); auto.
   - unfold depth_exceeded, MAX_CALL_DEPTH. unfold MAX_DEPTH in Hd. lia.
 Qed.
 
@@ -523,8 +524,10 @@ Proof.
       apply in_flat_map in Hin as ([[r st2] lg0] & _ & Hin).
       destruct r; cbn [output_of call_success negb] in Hin;
         apply in_map_addlog_probe in Hin as [-> ->]; try discriminate Hf; apply restore_call_world.
-    + destruct (send_callvalue _ _ _ _ _) as [st1|] eqn:Hsend; [|contradiction].
-      apply in_map_addlog_probe in Hin as [-> ->]. discriminate Hf.
+    + destruct (unknown_call_ok _).
+      * destruct (send_callvalue _ _ _ _ _) as [st1|] eqn:Hsend; [|contradiction].
+        apply in_map_addlog_probe in Hin as [-> ->]. discriminate Hf.
+      * cbn in Hin. destruct Hin as [H|[]]. inversion H; subst. reflexivity.
   - destruct (negb _ && _); [|contradiction].
     cbn in Hin. destruct Hin as [H|[]]. inversion H; subst. reflexivity.
 Qed.
@@ -722,7 +725,7 @@ Proof.
     rewrite (H2 _ _ eq_refl) in Erest. eauto.
 Qed.
 
-(* ------------------------------------------------------------------ repaired situations; the known deviation *)
+(* ------------------------------------------------------------------ the repaired situations *)
 Definition ctx0 (static : bool) (depth : Z) : fctx := mkCtx 4096 77 77 0 [0] static depth.
 Definition world0 (bal : Z) : world :=
   mkWorld [(4096, [0]); (8192, [0])] [] [] [(4096, bal)].
@@ -748,12 +751,13 @@ Qed.
    the only paths are those of the rest of the frame, continued with flag 0, empty return
    data and the untouched state *)
 Theorem callcode_insufficient_fails : forall to v rsz callee rest c st ob l,
-  0 <= balance_of st (c_this c) < v ->
+  0 <= balance_of st (c_this c) < v -> c_depth c + 1 <= MAX_DEPTH ->
   mexec (SCall KCallcode to v rsz callee rest) c st ob l =
   mexec rest c st (m_after_call ob 0 (Some (false, true, [])) rsz []) (Some (false, true, [])).
 Proof.
-  intros to v rsz callee rest c st ob l Hb.
+  intros to v rsz callee rest c st ob l Hb Hdp.
   assert (Ev : (v =? 0) = false) by lia.
+  assert (Eu : unknown_call_ok (c_depth c) = true) by (rewrite unknown_ok_eq; unfold MAX_DEPTH in *; lia).
   cbn [mexec]. unfold m_call. cbv zeta. rewrite static_check_eq. cbn [is_kcall andb].
   unfold send_callvalue, send_cond. rewrite sends_eq. cbn [is_kcall].
   change (call_fund (op_of KCallcode) v) with v.
@@ -761,7 +765,7 @@ Proof.
     by (unfold callvalue_checks_balance, op_of, OP_CALLCODE; lia).
   assert (E1 : callvalue_balance_ok (balance_of st (c_this c)) v = false) by (unfold callvalue_balance_ok; lia).
   assert (E2 : insufficient (balance_of st (c_this c)) v = true) by (unfold insufficient; lia).
-  rewrite E0, E1, E2, Ev. cbn [andb negb]. destruct (in_code st (to mod 2 ^ 160)); reflexivity.
+  rewrite E0, E1, E2, Ev, Eu. cbn [andb negb]. destruct (in_code st (to mod 2 ^ 160)); reflexivity.
 Qed.
 
 (* RETURNDATACOPY beyond the return data halts the frame, also when the size is 0 *)
@@ -778,25 +782,41 @@ Proof.
     rewrite E. reflexivity.
 Qed.
 
-(* a call of an address without account at the depth limit succeeds *)
-Theorem depth_nocode_refuted :
-  exists s c w ctr, supported s = true /\ c_depth c <= MAX_DEPTH /\
-    ~ Forall (fun m => R m (sframe s c w ctr)) (mframe s c (mstate_of w ctr)).
+(* 65d68f4: a call (of any kind, with any value) of an address WITHOUT ACCOUNT executed at the
+   depth limit fails like any other call: the specification goes on with status word 0 and
+   empty return data, and every path the model reports is a path of the rest of the frame
+   continued with status word 0, RETURNDATASIZE 0, an untouched return area and the untouched
+   state (nothing is sent) *)
+Theorem depth_limit_nocode_fails : forall kd to v rsz callee rest c w ctr ob l,
+  has_account w (to mod ADDR_MOD) = false -> MAX_DEPTH < c_depth c + 1 ->
+  is_kcall kd && c_static c && negb ((if carries_value kd then v else 0) =? 0) = false ->
+  sexec (SCall kd to v rsz callee rest) c w ctr ob (returndata l)
+    = sexec rest c w ctr (after_call ob 0 [] rsz []) [] /\
+  forall m, In m (mexec (SCall kd to v rsz callee rest) c (mstate_of w ctr) ob l) ->
+    exists l', returndata l' = [] /\
+      In m (mexec rest c (mstate_of w ctr) (m_after_call ob 0 l' rsz []) l').
 Proof.
-  exists (SCall KCall 12288 0 0 (SEnd EStop) (SEnd (EReturn 7))), (ctx0 false 1024), (world0 0), 0.
-  split; [reflexivity|]. split; [cbv; discriminate|].
-  intros H. vm_compute in H. inversion H as [|? ? H1 _]; subst.
-  destruct H1 as (_ & _ & H1 & _). discriminate H1.
+  intros kd to v rsz callee rest c w ctr ob l Ha Hd Hsv.
+  assert (Ed : (MAX_DEPTH <? c_depth c + 1) = true) by lia.
+  split.
+  - cbn [sexec]. rewrite Hsv, Ed. reflexivity.
+  - intros m Hin. cbn [mexec] in Hin. unfold m_call in Hin. cbv zeta in Hin.
+    change (2 ^ 160) with ADDR_MOD in Hin.
+    rewrite static_check_eq, Hsv, in_code_eq, Ha, unknown_ok_eq, Ed in Hin. cbn [negb] in Hin.
+    apply in_app_or in Hin as [Hin|Hin].
+    + exists (Some (false, false, [])). split; [reflexivity | exact Hin].
+    + destruct (negb _ && _); [|contradiction].
+      exists (Some (false, true, [])). split; [reflexivity | exact Hin].
 Qed.
 
 (* ------------------------------------------------------------------ whole-frame corollaries *)
 Theorem mframe_conserves : forall s c w ctr r ctr' lg ret st lg',
-  c_depth c <= MAX_DEPTH -> sframe s c w ctr = (r, ctr', lg) -> clean lg = true ->
+  c_depth c <= MAX_DEPTH -> sframe s c w ctr = (r, ctr', lg) ->
   In (FOk ret, st, lg') (mframe s c (mstate_of w ctr)) ->
   bal_ext w (world_of st).
 Proof.
-  intros s c w ctr r ctr' lg ret st lg' Hd Hs Hcl Hin.
-  destruct (mframe_refines _ _ _ _ _ _ _ Hd Hs Hcl) as [_ Hall].
+  intros s c w ctr r ctr' lg ret st lg' Hd Hs Hin.
+  destruct (mframe_refines _ _ _ _ _ _ _ Hd Hs) as [_ Hall].
   rewrite Forall_forall in Hall. specialize (Hall _ Hin).
   destruct r as [ret0 w0| |]; destruct Hall as (_ & _ & Hr); try discriminate Hr.
   destruct Hr as [_ <-].
@@ -868,10 +888,10 @@ Qed.
 (* statement shapes used by Props/C09.v *)
 Lemma mframe_refines_supported : forall s c w ctr r ctr' lg,
   supported s = true -> c_depth c <= MAX_DEPTH ->
-  sframe s c w ctr = (r, ctr', lg) -> clean lg = true ->
+  sframe s c w ctr = (r, ctr', lg) ->
   mframe s c (mstate_of w ctr) <> [] /\
   Forall (fun m : mres => R m (r, ctr', lg)) (mframe s c (mstate_of w ctr)).
-Proof. intros s c w ctr r ctr' lg _ Hd Hs Hc. exact (mframe_refines s c w ctr r ctr' lg Hd Hs Hc). Qed.
+Proof. intros s c w ctr r ctr' lg _ Hd Hs. exact (mframe_refines s c w ctr r ctr' lg Hd Hs). Qed.
 
 Lemma model_static_all : forall c st ob l, c_static c = true ->
   (forall k v rest, mexec (SSstore k v rest) c st ob l = [(FHalt, st, [LEnd FHalt])]) /\
